@@ -26,7 +26,7 @@ pub struct Case {
     cpu: usize,     // 0 = real /proc/cpuinfo, k = fixture k-1
     release: usize, // 0 real, 1 lsb only, 2 os only, 3 both, 4 neither
     uname_fails: bool,
-    linker: usize, // 0 kernel auxv (real chain), 1 direct auxv -> synthetic chain of 3, 2 direct values only for phdr/phnum, 3 direct zero (= unset, kernel's used), 4 synthetic chain of 0 objects, 5 chain with empty/long names
+    linker: usize, // 0 kernel auxv (real chain), 1 direct auxv -> synthetic chain of 3, 2 direct values only for phdr/phnum, 3 direct zero (= unset, kernel's used), 4 synthetic chain of 0 objects, 5 chain with empty/long names, 6 chain whose last name ends on the last byte of readable memory
 }
 
 impl Case {
@@ -191,7 +191,7 @@ fn walk_linker(p: &Puppet, phdr: u64, phnum: u64) -> Option<(u32, u64, u64, u64,
 }
 
 /// Put a synthetic linker structure into a window of the target (same layout as C02's).
-fn write_synthetic_chain(p: &Puppet, base: u64, names: &[&str]) {
+fn write_synthetic_chain(p: &Puppet, base: u64, names: &[&str], edge: bool) {
     let mut img = vec![0u8; 0x2000];
     let put = |img: &mut Vec<u8>, off: usize, v: u64| img[off..off + 8].copy_from_slice(&v.to_le_bytes());
     // phdrs at 0x100: PT_LOAD off 0 vaddr 0; PT_DYNAMIC vaddr 0x400
@@ -214,10 +214,12 @@ fn write_synthetic_chain(p: &Puppet, base: u64, names: &[&str]) {
     for (i, n) in names.iter().enumerate() {
         let o = 0x700 + 0x40 * i;
         put(&mut img, o, base + 0x100 * i as u64);
-        put(&mut img, o + 8, if n.is_empty() && i == 0 { 0 } else { base + 0x900 + 0x110 * i as u64 });
+        // `edge`: the last object's name ends (with its terminator) on the last byte of the window, the memory
+        // behind it is unmapped
+        let so = if edge && i + 1 == names.len() { 0x2000 - n.len() - 1 } else { 0x900 + 0x110 * i };
+        put(&mut img, o + 8, if n.is_empty() && i == 0 { 0 } else { base + so as u64 });
         put(&mut img, o + 16, base + 0x400 + i as u64);
         put(&mut img, o + 24, if i + 1 < names.len() { base + (0x700 + 0x40 * (i + 1)) as u64 } else { 0 });
-        let so = 0x900 + 0x110 * i;
         img[so..so + n.len()].copy_from_slice(n.as_bytes());
     }
     p.write(base, &img);
@@ -388,18 +390,19 @@ pub fn run_case(c: &Case) -> Vec<(String, String)> {
     let syn_names: Vec<&str> = match c.linker {
         1 | 2 => vec!["", "/lib/libone.so", "/opt/x y/libtwo.so.2"],
         4 => vec![],
+        6 => vec!["", "/lib/libone.so", "/opt/near the edge/libedge.so.3"],
         5 => vec!["", "", "/a-rather-long-name/0123456789012345678901234567890123456789012345678901234567890123456789012345678901234567890123456789/lib.so"],
         _ => vec![],
     };
     let (use_phdr, use_phnum) = match c.linker {
-        1 | 4 | 5 => {
-            write_synthetic_chain(&p, window, &syn_names);
+        1 | 4 | 5 | 6 => {
+            write_synthetic_chain(&p, window, &syn_names, c.linker == 6);
             o.direct_auxv = Some((2, window + 0x100, gate, entry));
             (window + 0x100, 2)
         }
         2 => {
             // only the program-header fields are supplied: the other two must come from the kernel
-            write_synthetic_chain(&p, window, &syn_names);
+            write_synthetic_chain(&p, window, &syn_names, c.linker == 6);
             o.direct_auxv = Some((2, window + 0x100, 0, 0));
             (window + 0x100, 2)
         }
@@ -525,7 +528,7 @@ fn menu(thorough: bool) -> Vec<Case> {
         v.push(Case { release: r, ..base.clone() });
     }
     v.push(Case { uname_fails: true, ..base.clone() });
-    for l in 1..6 {
+    for l in 1..7 {
         v.push(Case { linker: l, ..base.clone() });
     }
     // combinations
